@@ -187,6 +187,11 @@ class Continuous(AgentSchedulingComponent):
 
         slots = list()
 
+        # lfs and mem which remain available on this node while we collect
+        # slots (the node entry itself only changes once slots get allocated)
+        free_lfs = node.get('lfs') or 0
+        free_mem = node.get('mem') or 0
+
         # find at most `n_slots`
         loop_core_idx = 0
         loop_gpu_idx  = 0
@@ -194,6 +199,11 @@ class Continuous(AgentSchedulingComponent):
 
             node_idx  = node['index']
             node_name = node['name']
+
+            if (lfs_per_slot and lfs_per_slot > free_lfs) or \
+               (mem_per_slot and mem_per_slot > free_mem):
+                self._log.debug_9('not enough lfs/mem on %s', node_name)
+                break
 
             self._log.debug_9('find resources on %s:%d', node_name, node_idx)
             self._log.debug_9('node: %s', pprint.pformat(node))
@@ -264,6 +274,9 @@ class Continuous(AgentSchedulingComponent):
                     break
 
             self._log.debug_9('found resources on %s: %s', node_name, slot)
+
+            free_lfs -= lfs_per_slot or 0
+            free_mem -= mem_per_slot or 0
 
             slots.append(slot)
 
